@@ -28,7 +28,12 @@ PURE_BUILTINS = {"float", "int", "str", "abs", "pow", "len", "range", "isinstanc
                  "type", "repr", "super", "ValueError", "KeyError", "TypeError", "NotImplemented",
                  "hasattr", "any", "all", "sum", "iter", "next", "map", "filter", "divmod", "format",
                  "object", "property", "print_function", "NamedTuple", "Exception"}
-PURE_MODULE_CALLS = {"math", "re", "dataclasses", "zoneinfo", "typing", "enum", "json", "argparse"}
+# stdlib modules whose functions compute values (or, for logging/warnings, report without
+# influencing any result); caches are recognised separately, by decorator
+PURE_MODULE_CALLS = {"math", "re", "dataclasses", "zoneinfo", "typing", "enum", "json", "argparse",
+                     "itertools", "functools", "operator", "collections", "bisect", "string", "decimal",
+                     "fractions", "numbers", "calendar", "copy", "textwrap", "unicodedata", "cmath",
+                     "statistics", "heapq", "abc", "contextlib", "logging", "warnings"}
 PURE_METHODS = {"astimezone", "date", "replace", "utcoffset", "total_seconds", "split", "strip",
                 "lower", "upper", "items", "values", "keys", "get", "group", "weekday", "time",
                 "strftime", "strptime", "combine", "timedelta", "datetime", "timezone", "ZoneInfo",
